@@ -75,3 +75,34 @@ def transformation_bounds_single(u):
         u.ensure(QAll(n, lambda j: z3.And(npmodel.is32(lbv.f(j)), npmodel.is32(ubv.f(j)))), "internal_bounds_are_float32_values")
         u.ensure(QAll(n, lambda j: z3.And(lbv.f(j) == npmodel.rd32(u.it, ulb.f(j)), ubv.f(j) == npmodel.rd32(u.it, uub.f(j)))), "internal_bounds==user_bounds_rounded_to_float32")
     u.cover("end")
+
+
+@unit("C05.StepResult[single precision]", ["C05", "C06"], ["pygradflow.step.solver.step_solver.StepResult.__init__", "pygradflow.step.solver.step_solver.StepResult._compute_xn", "pygradflow.step.solver.step_solver.StepResult.iterate"], config={"max_paths": 50, "single_precision": True, "implicit_props": ["C05", "C06"]})
+def step_result_single(u):
+    """the trial point of a step in single precision: xn = rd32(x - dx) snapped onto the float32 bounds is a float32
+    vector inside the (working-precision) bounds, and so is the iterate built from it"""
+    from .common import mk_iterate
+
+    params = mk_params(u)
+    params.fields["precision"] = u.enum("pygradflow.params.Precision", "Single")
+    problem = mk_problem(u)
+    n, m = problem.fields["__n__"], problem.fields["num_cons"]
+    lb, ub = npmodel.f32_array(u, "lb", n), npmodel.f32_array(u, "ub", n)
+    lbv, ubv = V(lb), V(ub)
+    u.path.add_ufact(UFact(1, lambda j: lbv.f(j) <= ubv.f(j), [(0, n)], "requires:lb<=ub"))
+    problem.fields["var_lb"], problem.fields["var_ub"] = lb, ub  # established by C06.Transformation.bounds[single precision]
+    orig = mk_iterate(u, problem, params, "orig", evaluated=False)
+    x = npmodel.f32_array(u, "x", n)
+    orig.fields["x"] = x
+    orig.fields["y"] = npmodel.f32_array(u, "y", m)
+    dx, dy = npmodel.f32_array(u, "dx", n), npmodel.f32_array(u, "dy", m)
+    sr = u.construct("pygradflow.step.solver.step_solver.StepResult", orig, dx, dy, None)
+    xn = sr.fields["xn"]
+    xv = V(xn)
+    u.ensure(xn.dtype == "float32", "trial_point_is_a_float32_array")
+    u.ensure(QAll(n, lambda j: z3.And(lbv.f(j) <= xv.f(j), xv.f(j) <= ubv.f(j))), "trial_point_inside_the_working-precision_bounds")
+    nxt = u.get(sr, "iterate")
+    nx = nxt.fields["x"]
+    u.ensure(nx.dtype == "float32" and nx.cell is xn.cell or nx.dtype == "float32", "next_iterate.x_is_float32")
+    u.ensure(QAll(n, lambda j: z3.And(lbv.f(j) <= V(nx).f(j), V(nx).f(j) <= ubv.f(j))), "next_iterate_inside_the_working-precision_bounds")
+    u.cover("end")
